@@ -35,7 +35,8 @@ import (
 // "valid" (a correct chain for F's own key, control), "copied-extension" (the victim's
 // signed-key extension placed on F's certificate key), "no-extension", "corrupt-asn1",
 // "wrong-signer" (extension names the victim's key but is signed by F), "two-certs",
-// "not-self-signed" (a correct binding for F's own key on a certificate signed by another key).
+// "not-self-signed" (a correct binding for F's own key on a certificate signed by another key),
+// "replayed-extension" (the extension of the certificate the victim's transport really presents).
 // Other operations: honest dials through the controller (DialPeerAddr) with the address
 // rebinding fault (an address served by B now, by C later), and direct
 // Transport.HandleConn(dial|listen) calls on private datagram pairs (the path WebRTC and
@@ -76,7 +77,7 @@ func init() {
 		Cfg:        dsim.Config{MaxChaosSteps: 500, MaxStableSteps: 30000, Horizon: 2 * time.Minute},
 		Real:       []string{"crypto/tls (p2ptls): Identity, ConfigForPeer, PubKeyFromCertChain, signed-key extension", "transport/common/quic: DialSession, ListenSession, HandleConn, HandleSession, NewLink/DetermineSessionIdentity", "transport/common/pconn.Transport listener and dialer", "transport/controller.Controller", "quic-go v0.59 and crypto/tls handshakes"},
 		Stub:       []string{"net.PacketConn endpoints on the simulator's datagram network", "the forger is a harness-built quic-go client with crafted certificates", "websocket and WebRTC front-ends are not run; their shared HandleConn path is"},
-		FaultKinds: []string{"fault:forged-copied-extension", "fault:forged-no-extension", "fault:forged-corrupt-asn1", "fault:forged-wrong-signer", "fault:forged-two-certs", "fault:forged-not-self-signed", "fault:expected-peer-wrong", "fault:address-rebind", "fault:packet-loss", "fault:packet-dup", "fault:packet-reorder", "fault:packet-corrupt", "fault:clock-jump"},
+		FaultKinds: []string{"fault:forged-copied-extension", "fault:forged-no-extension", "fault:forged-corrupt-asn1", "fault:forged-wrong-signer", "fault:forged-two-certs", "fault:forged-not-self-signed", "fault:forged-replayed-extension", "fault:expected-peer-wrong", "fault:address-rebind", "fault:packet-loss", "fault:packet-dup", "fault:packet-reorder", "fault:packet-corrupt", "fault:clock-jump"},
 	})
 }
 
@@ -167,6 +168,17 @@ func (w *c03World) forgedCert(kind string, victim, forger *sig.Party) tls.Certif
 		victimCertKey, _ := ecdsa.GenerateKey(elliptic.P256(), rand.Reader)
 		ext, _ := p2ptls.GenerateSignedExtension(victim.Priv, victimCertKey.Public())
 		tmpl.ExtraExtensions = append(tmpl.ExtraExtensions, ext)
+	case "replayed-extension":
+		// the extension exactly as it appears on the certificate the victim presents to
+		// everybody (anyone who connects to the victim sees it), placed on F's certificate key
+		ext, ok := w.liveExtension(victim)
+		if ok {
+			w.s.Count("probe:replayed-live-extension")
+		} else {
+			victimCertKey, _ := ecdsa.GenerateKey(elliptic.P256(), rand.Reader)
+			ext, _ = p2ptls.GenerateSignedExtension(victim.Priv, victimCertKey.Public())
+		}
+		tmpl.ExtraExtensions = append(tmpl.ExtraExtensions, ext)
 	case "no-extension":
 	case "corrupt-asn1":
 		ext, _ := p2ptls.GenerateSignedExtension(victim.Priv, certKey.Public())
@@ -206,7 +218,34 @@ func (w *c03World) forgedCert(kind string, victim, forger *sig.Party) tls.Certif
 	return tls.Certificate{Certificate: chain, PrivateKey: certKey}
 }
 
-var c03ForgeKinds = []string{"valid", "copied-extension", "no-extension", "corrupt-asn1", "wrong-signer", "two-certs", "not-self-signed"}
+// liveExtension returns the signed-key extension of the certificate that the victim's
+// running transport presents in its handshakes.
+func (w *c03World) liveExtension(victim *sig.Party) (pkix.Extension, bool) {
+	refKey, _ := ecdsa.GenerateKey(elliptic.P256(), rand.Reader)
+	ref, _ := p2ptls.GenerateSignedExtension(victim.Priv, refKey.Public())
+	for _, nm := range []string{"A", "B", "C"} {
+		tc := w.tcs[nm]
+		if tc == nil || tc.P.ID != victim.ID || tc.Quic == nil {
+			continue
+		}
+		conf, _ := tc.Quic.GetIdentity().ConfigForPeer("")
+		if len(conf.Certificates) == 0 || len(conf.Certificates[0].Certificate) == 0 {
+			continue
+		}
+		cert, err := x509.ParseCertificate(conf.Certificates[0].Certificate[0])
+		if err != nil {
+			continue
+		}
+		for _, e := range cert.Extensions {
+			if e.Id.Equal(ref.Id) {
+				return pkix.Extension{Id: e.Id, Critical: e.Critical, Value: e.Value}, true
+			}
+		}
+	}
+	return pkix.Extension{}, false
+}
+
+var c03ForgeKinds = []string{"valid", "copied-extension", "no-extension", "corrupt-asn1", "wrong-signer", "two-certs", "not-self-signed", "replayed-extension"}
 
 func (w *c03World) forge(victimNode string) {
 	s := w.s
